@@ -445,6 +445,9 @@ class SymInt:
         if o.conc() == 0: return self
         if self.conc() == 0: return o
         ma, mb = self.maybe_bits(), o.maybe_bits()
+        if ma is None or mb is None:
+            self, o = tighten(self), tighten(o)
+            ma, mb = self.maybe_bits(), o.maybe_bits()
         if ma is not None and mb is not None and (ma & mb) == 0:
             r = SymInt(self.e + o.e, self.lo + o.lo, self.hi + o.hi, ma | mb)
             return r
@@ -580,7 +583,22 @@ def _and_const(x, c):
     return res
 
 
+def tighten(x):
+    """solver-based interval refinement under the current path condition (for bit operations)."""
+    if CUR is None or CUR.mode != 'sym' or x.conc() is not None: return x
+    lo, hi = x.lo, x.hi
+    if lo is None or lo < 0:
+        if CUR.sat(x.e < 0): return x
+        lo = 0
+    for k in (1, 3, 4, 8, 16, 32):
+        if hi is not None and hi < (1 << k): break
+        if not CUR.sat(x.e >= (1 << k)):
+            hi = (1 << k) - 1; break
+    return SymInt(x.e, lo, hi, x.bits)
+
+
 def _bvop(a, b, f, name):
+    a, b = tighten(a), tighten(b)
     if a.lo is None or b.lo is None or a.lo < 0 or b.lo < 0 or a.hi is None or b.hi is None:
         raise Unsupported('%s on possibly negative/unbounded symbolic operands' % name)
     w = max(a.hi.bit_length(), b.hi.bit_length(), 1)
